@@ -185,3 +185,19 @@ Theorem C03_dot_no_bond : forall strong s ty a pv s',
   ps_atoms s <> [] -> ps_prev s = Some (4, pv) -> In ty [0; 8] -> step strong s (ty, PAtom a) = Ok s' -> ps_bonds s' = ps_bonds s.
 Proof. exact dot_no_bond. Qed.
 Print Assumptions C03_dot_no_bond.
+
+(* ---- the tables of tokenize.py (regenerated from the source on every run) are the ones of the SMILES language, as sets /
+   finite maps: bond symbols and their orders, direction marks, organic-subset and aromatic symbols, every charge spelling *)
+Theorem C03_char_classes_pinned : forall c,
+  chr_in c bond_chars = chr_in c "-=#:~" /\ chr_in c updown_chars = chr_in c "/\" /\ chr_in c organic_chars = chr_in c "NOPSFI" /\
+  chr_in c aromatic_chars = chr_in c "cnopsb" /\ chr_in c cb_chars = chr_in c "CB".
+Proof. exact char_classes_pinned. Qed.
+Print Assumptions C03_char_classes_pinned.
+
+Theorem C03_dicts_pinned :
+  sdict_eqv Z.eqb replace_dict spec_replace = true /\
+  sdict_eqv (list_eqb Z.eqb) not_dict spec_not = true /\
+  sdict_eqv Z.eqb charge_dict spec_charge = true /\
+  forallb (fun x => smem x spec_aromatic) aromatic_elements && forallb (fun x => smem x aromatic_elements) spec_aromatic = true.
+Proof. exact dicts_pinned. Qed.
+Print Assumptions C03_dicts_pinned.
